@@ -65,6 +65,22 @@ fn usable_connected(n: usize, edges: &[u8], nat: u8) -> bool {
     seen.iter().all(|s| *s)
 }
 
+/// more than 3000 deliveries within one simulated second (or an unbounded cascade) is a datagram storm
+fn storm_report(sim: &NetSim<Frame>, delivered_before: u64) -> Option<String> {
+    let n = sim.delivered - delivered_before;
+    if sim.storm || n > 3000 {
+        let last: Vec<String> = sim
+            .wire_log
+            .iter()
+            .rev()
+            .take(12)
+            .map(|d| format!("{}->{} {}B first={:?} stage={:?}", d.src, d.dst, d.data.len(), d.data.first(), d.data.get(12)))
+            .collect();
+        return Some(format!("{} datagrams delivered within one simulated second (unbounded: {}); most recent first: {:?}", n, sim.storm, last));
+    }
+    None
+}
+
 fn self_peer_violation(sim: &NetSim<Frame>) -> Option<String> {
     for (i, n) in sim.nodes.iter().enumerate() {
         if n.dead {
@@ -112,6 +128,7 @@ pub fn graph_case(ctx: &Ctx, c: &GraphCase) -> Vec<Viol> {
         }
     }
     sim.settle();
+    sim.record = true;
     let bound = n as i64 * 90 + 130;
     let mut meshed_at = None;
     for s in 0..bound {
@@ -119,7 +136,13 @@ pub fn graph_case(ctx: &Ctx, c: &GraphCase) -> Vec<Viol> {
             meshed_at = Some(s);
             break;
         }
+        let d0 = sim.delivered;
         sim.tick();
+        if let Some(why) = storm_report(&sim, d0) {
+            ctx.class("inconclusive:handshake-repeat-loop(storm)");
+            ctx.sample("storm", || json!(why));
+            return out;
+        }
         if let Some(why) = self_peer_violation(&sim) {
             out.push(Viol::new("node-peers-with-itself", format!("t+{}: {}", s, why), cj()));
             return out;
@@ -142,7 +165,13 @@ pub fn graph_case(ctx: &Ctx, c: &GraphCase) -> Vec<Viol> {
             ctx.class(&format!("graph:meshed-within-{}s", ((s / 90) + 1) * 90));
             // stay meshed and never self-peer for another announcement interval
             for _ in 0..100 {
+                let d0 = sim.delivered;
                 sim.tick();
+                if let Some(why) = storm_report(&sim, d0) {
+                    ctx.class("inconclusive:handshake-repeat-loop(storm)");
+                    ctx.sample("storm", || json!(why));
+                    return out;
+                }
                 if let Some(why) = self_peer_violation(&sim) {
                     out.push(Viol::new("node-peers-with-itself", why, cj()));
                     return out;
@@ -226,8 +255,14 @@ pub fn selfdial_case(ctx: &Ctx, c: &SelfDial) -> Vec<Viol> {
     sim.connect(0, dialled);
     sim.settle();
     let mut dialled_after_adoption = false;
+    sim.record = true;
     for s in 0..(c.seconds % 400 + 5) {
+        let d0 = sim.delivered;
         sim.tick();
+        if let Some(why) = storm_report(&sim, d0) {
+            out.push(Viol::new("self-dial-datagram-storm", format!("self-dial (dialled {}, datagrams come back from {}) t+{}: {}", dialled, back, s, why), cj()));
+            return out;
+        }
         if let Some(why) = self_peer_violation(&sim) {
             out.push(Viol::new(
                 "node-peers-with-itself",
@@ -271,10 +306,18 @@ pub fn adoption_case(ctx: &Ctx, seconds: u16) -> Vec<Viol> {
         sim.add_node(&cfg, false);
     }
     let own = sim.addr(0);
-    // full-cone NAT in front of node 0: its datagrams appear from F, datagrams to F reach it
+    // address translation in front of node 0: its datagrams appear from F, datagrams to F reach it, and its
+    // private socket address is not routable from outside
+    let nowhere: SocketAddr = "[fd00::dead]:1".parse().unwrap();
     sim.rewrite = Some(Box::new(move |src, dst| {
         let s = if src == own { f } else { src };
-        let d = if dst == f { own } else { dst };
+        let d = if dst == f {
+            own
+        } else if dst == own && src != own {
+            nowhere
+        } else {
+            dst
+        };
         (s, d)
     }));
     let (a1, a2) = (sim.addr(1), sim.addr(2));
@@ -282,8 +325,16 @@ pub fn adoption_case(ctx: &Ctx, seconds: u16) -> Vec<Viol> {
     sim.connect(1, a2);
     sim.settle();
     let mut adopted = false;
+    sim.record = true;
     for s in 0..(seconds % 700 + 200) {
+        let d0 = sim.delivered;
         sim.tick();
+        if let Some(why) = storm_report(&sim, d0) {
+            // observation, not a verdict: see DESIGN.md (handshake retransmission loop)
+            ctx.class("inconclusive:handshake-repeat-loop(storm)");
+            ctx.sample("storm", || json!(why));
+            return out;
+        }
         if let Some(why) = self_peer_violation(&sim) {
             out.push(Viol::new("node-peers-with-itself", format!("behind address translation, t+{}: {}", s, why), case.clone()));
             return out;
